@@ -218,6 +218,34 @@ def run(prop, mod, root=None, jobs=16, record=False, verbose=False):
             continue
         tasks.append(('benign', b.name, (prop, root, {b.path: out}, b.name)))
 
+    # the filed corpora, as overlays: seeded breaking changes of this property must be reported, verified
+    # behaviour-preserving refactorings must not raise a VIOLATION (exit 2 on them is counted, not fatal)
+    from . import patch as patchmod
+    verif = os.path.dirname(HERE)
+
+    def reader(rel):
+        try:
+            return _read(root, rel)
+        except OSError:
+            return None
+    corpus_skipped = 0
+    for sid, meta, diff in patchmod.corpus(verif, 'seeded'):
+        if meta.get('property') != prop:
+            continue
+        ov = patchmod.apply(diff, reader)
+        if ov is None:
+            corpus_skipped += 1
+            continue
+        tasks.append(('seed', sid, (prop, root, ov, sid)))
+    for rid, meta, diff in patchmod.corpus(verif, 'benign'):
+        ov = patchmod.apply(diff, reader)
+        if ov is None:
+            corpus_skipped += 1
+            continue
+        if not any(rel in files for rel in ov):
+            continue      # does not touch a file this property is anchored in
+        tasks.append(('refactoring', rid, (prop, root, ov, rid)))
+
     if jobs > 1 and len(tasks) > 1:
         with ProcessPoolExecutor(max_workers=min(jobs, len(tasks))) as ex:
             results = list(ex.map(_run_variant, [t[2] for t in tasks]))
@@ -225,10 +253,30 @@ def run(prop, mod, root=None, jobs=16, record=False, verbose=False):
         results = [_run_variant(t[2]) for t in tasks]
 
     killed = mt = bt = bs = 0
+    seeds_total = seeds_caught = refac_total = refac_silent = refac_undecided = 0
     details = []
+    corpus_notes = []
     for (kind, spec, _), (label, viols, unds, err) in zip(tasks, results):
         if err:
             defects.append('%s %s crashed the checker: %s' % (kind, label, err.strip().splitlines()[-1]))
+            continue
+        if kind == 'seed':
+            seeds_total += 1
+            if viols:
+                seeds_caught += 1
+            else:
+                corpus_notes.append('seeded change %s is not reported%s' % (label, ' (analysis-error)' if unds else ''))
+            continue
+        if kind == 'refactoring':
+            refac_total += 1
+            if viols:
+                corpus_notes.append('FALSE ALARM on verified refactoring %s: %s %s' % (label, viols[0][0], viols[0][2][:160]))
+                if all(gated.get(r) for r in files):
+                    defects.append('false alarm on verified behaviour-preserving refactoring %s: %s' % (label, viols[0][0]))
+            elif unds:
+                refac_undecided += 1
+            else:
+                refac_silent += 1
             continue
         if kind == 'mutant':
             mt += 1
@@ -266,6 +314,12 @@ def run(prop, mod, root=None, jobs=16, record=False, verbose=False):
             json.dump(recorded, f, indent=1, sort_keys=True)
             f.write('\n')
         defects = [d for d in defects if 'not reported' in d or 'raised' in d or 'crashed' in d or 'parse' in d]
-    return {'mutants_total': mt, 'mutants_killed': killed, 'mutants_skipped': len(skipped),
+    if verbose:
+        for n in corpus_notes:
+            print('   ' + n)
+    return {'seeded_changes_run': seeds_total, 'seeded_changes_reported': seeds_caught,
+            'refactorings_run': refac_total, 'refactorings_silent': refac_silent, 'refactorings_analysis_error': refac_undecided,
+            'corpus_patches_not_applicable': corpus_skipped, 'corpus_notes': corpus_notes[:20],
+            'mutants_total': mt, 'mutants_killed': killed, 'mutants_skipped': len(skipped),
             'benign_total': bt, 'benign_silent': bs, 'defects': defects,
             'mutant_details': details, 'digest_gated_files': sorted(r for r, g in gated.items() if g)}
